@@ -40,6 +40,52 @@ ENTRY = {
 }
 
 
+def return_context(f):
+    """{id(Return node): 'quaternion' | 'angles' | 'rotmat' | None} from the enclosing `representation == '...'` tests.
+    Returns after an `if representation == 'quaternion': return ...` fall through to the remaining representation."""
+    ctx = {}
+
+    def rep_of(test):
+        t = ast.unparse(test)
+        if "representation" not in t:
+            return None
+        for k in ("quaternion", "angles", "rotmat"):
+            if "'%s'" % k in t:
+                return k
+        return None
+
+    def walk(stmts, cur, seen_q):
+        for s in stmts:
+            if isinstance(s, ast.Return):
+                ctx[id(s)] = cur if cur else ("other" if seen_q[0] else None)
+            elif isinstance(s, ast.If):
+                r = rep_of(s.test)
+                walk(s.body, r or cur, seen_q)
+                if r == "quaternion":
+                    seen_q[0] = True
+                walk(s.orelse, cur, seen_q)
+            elif isinstance(s, (ast.For, ast.While, ast.With, ast.Try)):
+                walk(getattr(s, "body", []), cur, seen_q)
+                walk(getattr(s, "orelse", []), cur, seen_q)
+    walk(f.body(), None, [False])
+    return ctx
+
+
+def classify(f, r, ctx):
+    """'quat' | exemption reason"""
+    node = r["stmt"]
+    c = ctx.get(id(node))
+    v = node.value
+    if c in ("angles", "rotmat", "other"):
+        return "%s representation (not a quaternion)" % c
+    if isinstance(v, ast.Call) and isinstance(v.func, ast.Attribute) and v.func.attr in ("to_DCM", "to_angles"):
+        return "%s() of a quaternion object" % v.func.attr
+    return "quat"
+
+
+AVN_FUNCS = {"tilt.py::Tilt.estimate"}      # quaternion returns proved unit by AVN (Euler -> quaternion block)
+
+
 def unit_ret(chk, prog, only=None):
     summ = {}
     n_paths = 0
@@ -50,13 +96,17 @@ def unit_ret(chk, prog, only=None):
         chk.touch(f)
         fa = Facts(f, prog, unit_params=unit_params, unit_summaries=summ).analyse()
         seen = 0
+        ctx = return_context(f)
         for r in fa.ret_info:
             if r["none"]:
                 continue
             seen += 1
             n_paths += 1
             site = "%s%s::L:%s" % (F, key, r["text"])
-            why = exempt.get(r["text"])
+            kind = classify(f, r, ctx)
+            why = None if kind == "quat" else kind
+            if kind == "quat" and key in AVN_FUNCS:
+                why = "AVN"
             if why == "AVN":
                 chk.ob("UNIT-RET.avn", site, "sum of squares of the returned quaternion == 1", lambda: tilt_unit(prog),
                        module=f.module.rel, function=f.qname, construct="non-unit return: " + r["text"], line=r["line"])
